@@ -178,6 +178,52 @@ def check_message(ctx, identity, vs, cs, ms, pad1, seedtag):
     return enc
 
 
+def recorded_case(ctx, name, frame):
+    """A frame from the repository's recorded receiver / caster logs (realistic content): the reference DECODER walks
+    the same bytes and predicts every attribute."""
+    from vf import common
+
+    payload = frame[3:-3]
+    identity = common.expected_identity(payload)
+    params = {"recorded": frame.hex(), "log": name}
+    if identity is None or identity not in refmodel.identities():
+        return
+    try:
+        ref = refmodel.decode(identity, payload)
+    except (refmodel.Short, refmodel.DefinitionError):
+        ctx.hit("recorded_frames_short_or_undefined")
+        return
+    for rep, entry in (("bytes", "frame"), ("bytearray", "ctor")):
+        try:
+            msg = parse(payload, rep, entry)
+        except Exception as e:
+            ctx.violation("parse-raised", f"recorded {identity} frame from {name}: {type(e).__name__}: {str(e)[:160]}", params)
+            return
+        diff = refmodel.compare(ref, msg)
+        if diff and ref.meta.get("zero_str"):
+            # text padded with NUL code units (real casters do that): whether NUL units appear in the joined string is
+            # not judged here (as for generated messages, which avoid the value 0 in text units); everything else is
+            exp = ref.expected_dict()
+            got = dict(refmodel.public_attrs(msg))
+            diff = None
+            for k_, v_ in exp.items():
+                if isinstance(v_, tuple):
+                    continue
+                if isinstance(v_, str):
+                    if k_ not in got or str(got[k_]).replace("\x00", "") != v_.replace("\x00", ""):
+                        diff = f"text attribute {k_}: parsed {got.get(k_)!r}, bits encode {v_!r}"
+                        break
+                elif k_ not in got or not refmodel.values_equal(got[k_], v_):
+                    diff = f"attribute {k_}: parsed {got.get(k_)!r}, bits encode {v_!r}"
+                    break
+            ctx.hit("recorded_frames_with_nul_text")
+        if diff:
+            ctx.violation("value-mismatch", f"recorded {identity} frame from {name}: {diff}", params)
+            return
+    ctx.hit("recorded_frames_compared")
+    ctx.case(payload + b"|rec", True)
+
+
 def wide_mask_case(ctx, identity, seedtag):
     """MSM with NSat x NSig > 64 (beyond the standard's limit): the parser may reject the message with a
     library error, or decode it with the cell mask NSat x NSig bits wide - but never silently otherwise."""
@@ -231,6 +277,11 @@ def run(ctx):
     mine = [i for k, i in enumerate(ids) if ctx.mine(k)]
     rng = ctx.rng
     sampled = 0
+    from vf import common
+
+    for k_, (name_, fr_) in enumerate(common.recorded_frames()):
+        if ctx.mine(k_):
+            recorded_case(ctx, name_, fr_)
     for identity in mine:
         ctx.hit("identities")
         msm = refmodel.is_msm_identity(identity)
@@ -308,6 +359,9 @@ def replay(ctx, p):
         return
     if p.get("wide"):
         wide_mask_case(ctx, p["identity"], p["seedtag"])
+        return
+    if p.get("recorded"):
+        recorded_case(ctx, p.get("log", "?"), bytes.fromhex(p["recorded"]))
         return
     ctx.leafseen = set()
     ctx.maxindex = 0
